@@ -301,13 +301,16 @@ func (e *Engine) checkQuiescent(final bool) {
 		probe(PrMetricsChecked)
 	}
 	if final {
-		e.checkFinalTTL(snap, now)
+		e.checkFinalTTL(snap, now, e.finalProp)
 	}
 }
 
 // checkFinalTTL: C14 "eventually" clause, after the epilogue advanced the
 // clock far beyond every expiration while the cache kept processing writes.
-func (e *Engine) checkFinalTTL(snap *ristretto.VerifSnap[*Val], now time.Time) {
+func (e *Engine) checkFinalTTL(snap *ristretto.VerifSnap[*Val], now time.Time, prop string) {
+	if prop == "" {
+		prop = "C14"
+	}
 	n := int(atomic.LoadInt32(&e.nvals))
 	for i := 0; i < n; i++ {
 		v := e.vals[i]
@@ -315,7 +318,7 @@ func (e *Engine) checkFinalTTL(snap *ristretto.VerifSnap[*Val], now time.Time) {
 			continue
 		}
 		if v.NExit == 0 {
-			e.violate("C14", "expired-never-reclaimed", fmt.Sprintf("value %d (key %d, ttl %v, set at +%v) expired long ago but was never released", v.ID, v.Key, time.Duration(v.TTL), time.Duration(v.InvT-e.startT.UnixNano())), 0)
+			e.violate(prop, "expired-never-reclaimed", fmt.Sprintf("value %d (key %d, ttl %v, set at +%v) expired long ago but was never released", v.ID, v.Key, time.Duration(v.TTL), time.Duration(v.InvT-e.startT.UnixNano())), 0)
 		}
 	}
 	for _, en := range snap.Entries {
@@ -324,7 +327,7 @@ func (e *Engine) checkFinalTTL(snap *ristretto.VerifSnap[*Val], now time.Time) {
 			if en.Value != nil {
 				id = en.Value.ID
 			}
-			e.violate("C14", "expired-entry-resident", fmt.Sprintf("key %#x (logical %d, value %d) expired at %v but is still held %v later", en.Key, e.logicalKey(en.Key), id, en.Expiration.Sub(e.startT), now.Sub(en.Expiration)), 0)
+			e.violate(prop, "expired-entry-resident", fmt.Sprintf("key %#x (logical %d, value %d) expired at %v but is still held %v later", en.Key, e.logicalKey(en.Key), id, en.Expiration.Sub(e.startT), now.Sub(en.Expiration)), 0)
 		}
 	}
 	for _, kc := range snap.KeyCosts {
@@ -335,7 +338,7 @@ func (e *Engine) checkFinalTTL(snap *ristretto.VerifSnap[*Val], now time.Time) {
 			}
 		}
 		if !found && e.plan.Flags.Injective {
-			e.violate("C14", "capacity-not-released", fmt.Sprintf("key %#x is still charged %d although it is not stored", kc.Key, kc.Cost), 0)
+			e.violate(prop, "capacity-not-released", fmt.Sprintf("key %#x is still charged %d although it is not stored", kc.Key, kc.Cost), 0)
 		}
 	}
 }
